@@ -377,11 +377,16 @@ pub struct Walk {
     /// entries whose type parameters and (for non struct/enum entries) elements
     /// have to be resolved in order to name a field type of some generated owner
     pub expanded: BTreeSet<u32>,
+    /// the same, restricted to entries opened on behalf of an owner other than themselves:
+    /// a fault in an owner's own type parameter changes that owner's parameter ids, so a
+    /// reference back to itself may then be answered with the parameter name
+    pub expanded_by_other: BTreeSet<u32>,
 }
 
 pub fn walk(reg: &PortableRegistry, substituted: &BTreeSet<Vec<String>>) -> Walk {
     let mut generated = BTreeSet::new();
     let mut expanded = BTreeSet::new();
+    let mut expanded_by_other = BTreeSet::new();
     for (i, t) in reg.types.iter().enumerate() {
         if !refmodel::is_generated_kind(&t.ty) || substituted.contains(&t.ty.path.segments) {
             continue;
@@ -404,6 +409,9 @@ pub fn walk(reg: &PortableRegistry, substituted: &BTreeSet<Vec<String>>) -> Walk
             }
             let Some(tt) = reg.resolve(id) else { continue };
             expanded.insert(id);
+            if id != i as u32 {
+                expanded_by_other.insert(id);
+            }
             let (ps, ks) = refmodel::children(tt);
             stack.extend(ps);
             if !matches!(tt.type_def, TypeDef::Composite(_) | TypeDef::Variant(_)) {
@@ -418,6 +426,7 @@ pub fn walk(reg: &PortableRegistry, substituted: &BTreeSet<Vec<String>>) -> Walk
     Walk {
         generated,
         expanded,
+        expanded_by_other,
     }
 }
 
@@ -705,6 +714,7 @@ pub fn judge(c: &Case, r: &Result<CaseResult, String>) -> Option<(String, String
             let w = walk(reg, &substituted_paths(&c.ops));
             let must = match site {
                 Site::Field { entry, .. } => w.generated.contains(entry),
+                Site::Param { entry, .. } => w.expanded_by_other.contains(entry),
                 s => w.expanded.contains(&s.entry()),
             };
             let ok = match &r.generate {
@@ -892,6 +902,28 @@ fn fault_free_inputs(w: &World, ctx: &Ctx) -> Vec<FaultFreeInput> {
             reg: Arc::new(corpus::slice(&w.polkadot, &roots)),
         });
     }
+    // seeded programs registered the way scale-info does (see gen.rs), raw and de-duplicated
+    let n_gen = match ctx.tier {
+        Tier::Quick => ctx.scaled(400),
+        Tier::Thorough => ctx.scaled(20_000),
+    };
+    for _ in 0..n_gen {
+        let s = rng.next_u64();
+        let r = crate::gen::random_registry(&mut Rng::new(s));
+        if rng.chance(1, 3) {
+            if let Some(r2) = dedup_on_execution_thread(&r) {
+                v.push(FaultFreeInput {
+                    name: format!("gen:{s:016x}+dedup"),
+                    reg: Arc::new(r2),
+                });
+                continue;
+            }
+        }
+        v.push(FaultFreeInput {
+            name: format!("gen:{s:016x}"),
+            reg: Arc::new(r),
+        });
+    }
     for i in 0..n_derived {
         let e = rng.pick(&w.families);
         let pairs = 1 + rng.usize_below(3);
@@ -942,6 +974,19 @@ fn fault_bases(w: &World, ctx: &Ctx) -> Vec<Base> {
             name: format!("polkadot:slice{roots:?}+unique"),
             reg: Arc::new(r),
             exhaustive: ctx.tier == Tier::Thorough || r_small(&roots),
+        });
+    }
+    let n_gen = match ctx.tier {
+        Tier::Quick => ctx.scaled(12),
+        Tier::Thorough => ctx.scaled(400),
+    };
+    for _ in 0..n_gen {
+        let s = rng.next_u64();
+        let r = corpus::uniquify(&crate::gen::random_registry(&mut Rng::new(s)));
+        v.push(Base {
+            name: format!("gen:{s:016x}+unique"),
+            reg: Arc::new(r),
+            exhaustive: true,
         });
     }
     if ctx.tier == Tier::Thorough {
@@ -998,6 +1043,7 @@ fn classify_must(c: &Case) -> bool {
             let w = walk(reg, &substituted_paths(&c.ops));
             match site {
                 Site::Field { entry, .. } => w.generated.contains(entry),
+                Site::Param { entry, .. } => w.expanded_by_other.contains(entry),
                 s => w.expanded.contains(&s.entry()),
             }
         }
